@@ -154,7 +154,11 @@ func (m *Machine) handOff(self *Goroutine) {
 				next = p.gor[0]
 			}
 		}()
-		next = en[m.choose(len(en))]
+		if m.cfg.Sched == 0 {
+			next = en[0]
+		} else {
+			next = en[m.choose(len(en))]
+		}
 	}()
 	next.resume <- struct{}{}
 }
@@ -192,7 +196,11 @@ func (m *Machine) block(cond func() bool, what string) {
 					}
 				}
 			}
-			next = ord[m.choose(len(ord))]
+			if m.cfg.Sched == 0 {
+				next = ord[0] // deterministic schedule: run the lowest-numbered enabled goroutine
+			} else {
+				next = ord[m.choose(len(ord))]
+			}
 		}
 		if next == self {
 			self.enabled = nil
